@@ -48,7 +48,9 @@ func mkIn(i int, slen int, null bool) reftx.In {
 }
 
 func mkOut(i int, slen int) reftx.Out {
-	return reftx.Out{Value: 0x0000000005f5e100 + uint64(i), Script: fill(slen, byte(0x61+i))}
+	// value bytes 03+i 00 00 00 01 00 00 00: read as a 2/4-byte count they are tiny, as an
+	// 8-byte count they are refused at once (keeps count-driven loops short)
+	return reftx.Out{Value: 0x0000000100000003 + uint64(i), Script: fill(slen, byte(0x61+i))}
 }
 
 func mkBase(name string, t *reftx.Tx, force bool) base {
